@@ -24,6 +24,7 @@ import (
 	"strconv"
 	"strings"
 	"sync"
+	"sync/atomic"
 	"testing"
 	"testing/synctest"
 	"time"
@@ -40,6 +41,8 @@ type rawTarget struct {
 	mu     sync.Mutex
 	mode   string
 	refuse bool
+	// set just before the target drops a connection that the proxy is to see as reset (RST), not closed
+	resetting atomic.Bool
 	conns  []net.Conn
 	seen   int
 }
@@ -87,6 +90,14 @@ func (t *rawTarget) handle(c net.Conn) {
 			io.WriteString(c, "HTTP/1.1 103 Early Hints\r\nLink: </style.css>; rel=preload\r\n\r\n")
 			fmt.Fprintf(c, "HTTP/1.1 %s X\r\nContent-Type: text/plain\r\nX-Resp: v1\r\nX-Resp: v2\r\nContent-Length: %d\r\n\r\n%s", st, n, strings.Repeat("b", n))
 		case "close":
+			return
+		case "reset":
+			// the connection is reset rather than closed: the proxy's read fails with ECONNRESET
+			t.resetting.Store(true)
+			return
+		case "resetmidheaders":
+			io.WriteString(c, "HTTP/1.1 200 OK\r\nContent-Type: text/plain\r\nX-Foo")
+			t.resetting.Store(true)
 			return
 		case "garbage":
 			io.WriteString(c, "BLAH BLAH BLAH\r\n\r\n")
@@ -150,15 +161,15 @@ func (l *logCapture) Write(p []byte) (int, error) {
 	return len(p), nil
 }
 
-var fltModes = []string{"ok:200:0", "ok:200:10", "ok:404:5", "ok:500:3", "ok:201:70000", "early:200:4", "early:404:5", "early:503:0", "early:201:300", "close", "garbage", "midstatus", "midheaders", "afterstatus", "afterheaderline", "silence",
+var fltModes = []string{"ok:200:0", "ok:200:10", "ok:404:5", "ok:500:3", "ok:201:70000", "early:200:4", "early:404:5", "early:503:0", "early:201:300", "close", "reset", "resetmidheaders", "garbage", "midstatus", "midheaders", "afterstatus", "afterheaderline", "silence",
 	"midbody:10:4", "midbody:70000:100", "chunkpartial", "refuse", "upgrade", "slow:%d"}
 
 func genFaults(rng *mrand.Rand, n int, tier string, w *bufio.Writer) {
 	for c := 0; c < n; c++ {
 		bufresp, bufreq, pages := chance(rng, 40), chance(rng, 30), chance(rng, 40)
 		timeout := pick(rng, []int64{2_000_000_000, 500_000_000})
-		fmt.Fprintf(w, "# case %d\nsetup bufresp=%s bufreq=%s pages=%s timeout=%d logreq=%s logresp=%s\n", c, b2s(bufresp), b2s(bufreq), b2s(pages), timeout,
-			encList(pickSome(rng, []string{"X-Custom", "accept"})), encList(pickSome(rng, []string{"X-Resp", "content-type"})))
+		fmt.Fprintf(w, "# case %d\nsetup bufresp=%s bufreq=%s pages=%s timeout=%d logreq=%s logresp=%s maxresp=%d\n", c, b2s(bufresp), b2s(bufreq), b2s(pages), timeout,
+			encList(pickSome(rng, []string{"X-Custom", "accept"})), encList(pickSome(rng, []string{"X-Resp", "content-type"})), pick(rng, []int{0, 0, 50000, 299}))
 		for i := 0; i < 10; i++ {
 			mode := pick(rng, fltModes)
 			if strings.HasPrefix(mode, "slow") {
@@ -235,6 +246,7 @@ func runFaults(t *testing.T, fx *fixtures, c verifCase, w *bufio.Writer) {
 				to.ResponseTimeout = time.Duration(v)
 				to.BufferResponses, to.BufferRequests = kv["bufresp"] == "1", kv["bufreq"] == "1"
 				to.MaxMemoryBufferSize = 1024
+				to.MaxResponseBodySize, _ = strconv.ParseInt(kv["maxresp"], 10, 64)
 				to.LogRequestHeaders, to.LogResponseHeaders = decList(kv["logreq"]), decList(kv["logresp"])
 				so := ServiceOptions{Hosts: []string{"f.test"}}
 				if kv["pages"] == "1" {
